@@ -178,30 +178,48 @@ func (p PubSubBackend[Result]) ListenForNotifications(
 		for {
 			select {
 			case <-ctx.Done():
-				replyChan <- Reply[Result]{
+				select {
+				case replyChan <- Reply[Result]{
 					Error: ReplyTimeoutError{time.Since(start), ctx.Err()},
+				}:
+				default:
+					// nobody reads the replies anymore
 				}
 				return
 			case notifyMsg, ok := <-notifyMsgs:
 				if !ok {
 					// subscriber is closed
-					replyChan <- Reply[Result]{
+					select {
+					case replyChan <- Reply[Result]{
 						Error: ReplyTimeoutError{time.Since(start), fmt.Errorf("subscriber closed")},
+					}:
+					default:
+						// nobody reads the replies anymore
 					}
 					return
 				}
 
 				resp, ok, unmarshalErr := p.handleNotifyMsg(notifyMsg, string(params.OperationID), p.marshaler)
+				var reply Reply[Result]
 				if unmarshalErr != nil {
-					replyChan <- Reply[Result]{
+					reply = Reply[Result]{
 						Error: ReplyUnmarshalError{unmarshalErr},
 					}
 				} else if ok {
-					replyChan <- Reply[Result]{
+					reply = Reply[Result]{
 						HandlerResult:       resp.HandlerResult,
 						Error:               resp.Error,
 						NotificationMessage: notifyMsg,
 					}
+				} else {
+					continue
+				}
+
+				select {
+				case replyChan <- reply:
+				case <-ctx.Done():
+					// the caller is gone: do not block on a reply nobody reads
+					return
 				}
 
 				// we assume that more messages may arrive (in case of fan-out commands handling) - we don't exit yet
